@@ -314,6 +314,13 @@ def check(chk: Check) -> None:
     )
     chk.part("disabled", lambda: _disabled(chk))
     chk.part("lru", lambda: _lru(chk))
+    # the closure above is computed per table size S with writer and reader both sized S; the reader takes S from the
+    # options row, so "ids within [0, size], live entries <= declared size" also needs the row to announce the size the
+    # writer's tables really have, on every path on which the library itself pairs encoder and options
+    from . import c13
+
+    chk.rule("C05.TABLE.declared-size-is-table-size", "the size the reader is told (options row) is the size of the writer's table on every library-chosen pairing of encoder and options (no options, guessed options, for_rdflib)", floor=16)
+    chk.part("declared-size", lambda: c13.declared_sizes(chk, "C05.TABLE.declared-size-is-table-size"))
 
 
 def _disabled(chk: Check) -> None:
